@@ -4,6 +4,13 @@ open Util
 
 let tf b = if b then "T" else "F"
 
+(* the verdict comes from the index-level model (Model/IpL1.v, proved equal to Model/Ip.v):
+   an out-of-range index in it would show as PANIC against the implementation's answer *)
+let show_l1 l1 l2 = match l1 with
+  | Ret b -> if b = l2 then tf b else "MODEL-ERROR:l1-differs-from-l2"
+  | Panic -> "PANIC"
+  | OutOfFuel -> "OUT-OF-FUEL"
+
 let show_paddr = function
   | None -> "E"
   | Some (P4 b) -> hex_of_str b ^ "%-"
@@ -14,7 +21,7 @@ let ipstr args =
   | [h] ->
     let s = str_of_hex h in
     (* the third token is the property itself: validator and reference parser agree *)
-    "G=" ^ tf (is_valid_ip_string s) ^ " N=" ^ show_paddr (parse_addr s) ^ " A"
+    "G=" ^ show_l1 (is_valid_ip_string_l1 s) (is_valid_ip_string s) ^ " N=" ^ show_paddr (parse_addr s) ^ " A"
   | _ -> failwith "ipstr: bad args"
 
 let ipportstr args =
@@ -24,7 +31,7 @@ let ipportstr args =
     let n = match parse_addr_port s with
       | None -> "E"
       | Some (a, p) -> show_paddr (Some a) ^ ":" ^ string_of_z p in
-    "G=" ^ tf (is_valid_ip_port_string s) ^ " N=" ^ n ^ " A"
+    "G=" ^ show_l1 (is_valid_ip_port_string_l1 s) (is_valid_ip_port_string s) ^ " N=" ^ n ^ " A"
   | _ -> failwith "ipportstr: bad args"
 
 let () =
